@@ -5614,8 +5614,8 @@ xpath_pi_node(struct lyxp_set *set, enum lyxp_axis axis, uint32_t options)
     }
 
     if (set->type != LYXP_SET_NODE_SET) {
-        lyxp_set_free_content(set);
-        return LY_SUCCESS;
+        LOGVAL(set->ctx, LY_VCODE_XP_INOP_1, "path operator", print_set_type(set));
+        return LY_EVALID;
     }
 
     /* just like moving to a node with no restrictions */
